@@ -93,7 +93,19 @@ func RecvVal[T any](ch <-chan T, v reflect.Value) T {
 
 // Select is a rewritten select statement. It returns the index of the case
 // that fired (-1 for default), and for a receive the value and ok flag.
-func Select(hasDefault bool, cases ...SelCase) (int, reflect.Value, bool) {
+func Select(hasDefault bool, cases ...SelCase) SelResult {
+	i, v, ok := selectImpl(hasDefault, cases)
+	return SelResult{I: i, V: v, OK: ok}
+}
+
+// SelResult is what a rewritten select switches on.
+type SelResult struct {
+	I  int
+	V  reflect.Value
+	OK bool
+}
+
+func selectImpl(hasDefault bool, cases []SelCase) (int, reflect.Value, bool) {
 	s := simTask()
 	n := len(cases)
 	if s == nil {
@@ -164,3 +176,22 @@ func (s *Sim) noteSelectReady(cases []SelCase, won int) {
 		}
 	}
 }
+
+// ChanIter drives a rewritten `for v := range ch`.
+type ChanIter[T any] struct {
+	ch <-chan T
+	v  T
+}
+
+// NewChanIter starts a range over ch.
+func NewChanIter[T any](ch <-chan T) *ChanIter[T] { return &ChanIter[T]{ch: ch} }
+
+// Next receives the next value; false when the channel is closed and drained.
+func (it *ChanIter[T]) Next() bool {
+	v, ok := ChanRecv2(it.ch)
+	it.v = v
+	return ok
+}
+
+// Val returns the value received by Next.
+func (it *ChanIter[T]) Val() T { return it.v }
